@@ -288,4 +288,67 @@ mod verif_k {
     // (One step up the grammar was tried with fixed shapes: `eq`/`non_eq` on `a=v` ran CBMC out of memory (20 GB) after
     //  10 min of symbolic execution; `dn_mrule` on `:r:=v` ended with an unwinding-assertion ERROR inside nom's fold_many0.
     //  The productions are under Verus contracts instead: unit V-filter.)
+
+    // ---- nom itself, against the contracts that unit V-filter assumes for its combinators (bounded: every 3-byte input,
+    // literal element parsers).  These run the real nom 7 code.
+    fn run_of(b: &[u8; 3], c: u8) -> usize { if b[0] != c { 0 } else if b[1] != c { 1 } else if b[2] != c { 2 } else { 3 } }
+    type R<'a, O> = IResult<&'a [u8], O>;
+    #[kani::proof]
+    #[kani::unwind(5)]
+    fn nom_tag_opt_contracts() {
+        let b: [u8; 3] = kani::any();
+        let r: R<&[u8]> = tag(b"ab")(&b[..]);
+        if b[0] == b'a' && b[1] == b'b' { match r { Ok((rest, m)) => { assert!(rest.len() == 1 && rest[0] == b[2] && m.len() == 2 && m[0] == b'a' && m[1] == b'b'); } Err(_) => { assert!(false); } } }
+        else { assert!(matches!(r, Err(nom::Err::Error(_)))); }
+        let o: R<Option<&[u8]>> = opt(tag(b"a"))(&b[..]);
+        match o { Ok((rest, Some(m))) => { assert!(b[0] == b'a' && rest.len() == 2 && m.len() == 1); } Ok((rest, None)) => { assert!(b[0] != b'a' && rest.len() == 3); } Err(_) => { assert!(false); } }
+    }
+    #[kani::proof]
+    #[kani::unwind(5)]
+    fn nom_sequence_contracts() {
+        let b: [u8; 3] = kani::any();
+        let p: R<&[u8]> = preceded(tag(b"a"), tag(b"b"))(&b[..]);
+        if b[0] == b'a' && b[1] == b'b' { match p { Ok((rest, m)) => { assert!(rest.len() == 1 && m.len() == 1 && m[0] == b'b'); } Err(_) => { assert!(false); } } } else { assert!(matches!(p, Err(nom::Err::Error(_)))); }
+        let d: R<&[u8]> = delimited(tag(b"("), tag(b"x"), tag(b")"))(&b[..]);
+        if b[0] == b'(' && b[1] == b'x' && b[2] == b')' { match d { Ok((rest, m)) => { assert!(rest.len() == 0 && m.len() == 1 && m[0] == b'x'); } Err(_) => { assert!(false); } } } else { assert!(matches!(d, Err(nom::Err::Error(_)))); }
+        let g: R<&[u8]> = recognize(preceded(tag(b"a"), tag(b"b")))(&b[..]);
+        if b[0] == b'a' && b[1] == b'b' { match g { Ok((rest, m)) => { assert!(rest.len() == 1 && m.len() == 2 && m[0] == b'a' && m[1] == b'b'); } Err(_) => { assert!(false); } } } else { assert!(g.is_err()); }
+    }
+    #[kani::proof]
+    #[kani::unwind(5)]
+    fn nom_alt_map_contracts() {
+        let b: [u8; 3] = kani::any();
+        // ordered choice: the first alternative that succeeds
+        let a: R<&[u8]> = alt((tag(b"ab"), tag(b"a"), tag(b"b")))(&b[..]);
+        match a {
+            Ok((rest, m)) => {
+                if b[0] == b'a' && b[1] == b'b' { assert!(m.len() == 2 && rest.len() == 1); }
+                else if b[0] == b'a' { assert!(m.len() == 1 && m[0] == b'a' && rest.len() == 2); }
+                else { assert!(b[0] == b'b' && m.len() == 1 && rest.len() == 2); }
+            }
+            Err(_) => { assert!(b[0] != b'a' && b[0] != b'b'); }
+        }
+        let m: R<usize> = map(tag(b"a"), |x: &[u8]| x.len() + 6)(&b[..]);
+        match m { Ok((rest, v)) => { assert!(b[0] == b'a' && v == 7 && rest.len() == 2); } Err(_) => { assert!(b[0] != b'a'); } }
+        let second = b[1];
+        let mr: R<u8> = map_res(tag(b"a"), |_x: &[u8]| -> Result<u8, ()> { if second == b'z' { Err(()) } else { Ok(second) } })(&b[..]);
+        match mr { Ok((rest, v)) => { assert!(b[0] == b'a' && second != b'z' && v == second && rest.len() == 2); } Err(_) => { assert!(b[0] != b'a' || second == b'z'); } }
+    }
+    #[kani::proof]
+    #[kani::unwind(6)]
+    fn nom_many_contracts() {
+        let b: [u8; 3] = kani::any();
+        let k = run_of(&b, b'a');
+        let m0: R<Vec<&[u8]>> = many0(tag(b"a"))(&b[..]);
+        match &m0 { Ok((rest, v)) => { assert!(v.len() == k && rest.len() == 3 - k); } Err(_) => { assert!(false); } }
+        std::mem::forget(m0);
+        let m1: R<Vec<&[u8]>> = many1(tag(b"a"))(&b[..]);
+        match &m1 { Ok((rest, v)) => { assert!(k >= 1 && v.len() == k && rest.len() == 3 - k); } Err(_) => { assert!(k == 0); } }
+        std::mem::forget(m1);
+        // a success that consumes nothing is an error (the infinite-loop guard): opt(..) always succeeds, eventually without
+        // consuming (at the latest on the empty rest), so many0 over it always fails
+        let g: R<Vec<Option<&[u8]>>> = many0(opt(tag(b"a")))(&b[..]);
+        assert!(g.is_err());
+        std::mem::forget(g);
+    }
 }
